@@ -31,7 +31,7 @@ ASSUMPTIONS = [
 SHARDS = {'quick': 16, 'thorough': 16}
 CASES = {'quick': 150, 'thorough': 5000}
 SU_CLAUSES = {'su-length', 'su-version', 'su-sp', 'su-er', 'su-ce-bounds', 'su-ce-overlap', 'su-ce-last', 'su-ce-loop', 'su-both-endian', 'su-unknown',
-              'rr-px-len', 'rr-nm', 'rr-sl', 'rr-cl-target', 'rr-pl-target', 'rr-re', 'rr-dup-name', 'rr-depth', 'unreadable'}
+              'rr-px-len', 'rr-nm', 'rr-sl', 'rr-sl-continue', 'rr-cl-target', 'rr-pl-target', 'rr-re', 'rr-dup-name', 'rr-depth', 'unreadable'}
 
 
 def strategy(tier):
